@@ -219,7 +219,8 @@ func c02Programs(tier string) []*Spec {
 func init() {
 	register(&Family{
 		Property: "C02",
-		Rule: "call histories of length 1..2 over the public Bar/Progress methods {Add, IncrBy, SetCurrent, SetTotal, EnableTriggerComplete, SetRefill, Abort(false/true), UpdateBarPriority, Progress.Write, getters, TraverseDecorators, ProxyReader, ProxyWriter, EwmaIncrInt64, DecoratorAverageAdjust} issued by one thread while a second thread issues the done event {ctx cancel, Shutdown, none} and main calls Wait, " +
+		Rule: "also (cross-family slice): the quick-tier programs of the other concurrent families (C03 C04 C05 C06 C12 C13 C14 C15 C17 C18; no pseudo terminals), with no deviation under every base strategy and one deviation under the first, judged by the verdict alone (no panic, no deadlock, starvation, livelock, runaway loop); " +
+			"call histories of length 1..2 over the public Bar/Progress methods {Add, IncrBy, SetCurrent, SetTotal, EnableTriggerComplete, SetRefill, Abort(false/true), UpdateBarPriority, Progress.Write, getters, TraverseDecorators, ProxyReader, ProxyWriter, EwmaIncrInt64, DecoratorAverageAdjust} issued by one thread while a second thread issues the done event {ctx cancel, Shutdown, none} and main calls Wait, " +
 			"so the bounded schedule search puts the container-done event at every position of the history; refresh {auto, none, manual}; then 18 late calls by main (among them an empty Write). " +
 			"Oracle: no PANIC/DEADLOCK/LIVELOCK/STARVED verdict in any thread; every call returns; late Add = ErrDone, late Write = (0, ErrDone), late proxies = nil, late mutators leave the getters unchanged, bar not running.",
 		Items: func(tier string) []Item {
